@@ -151,7 +151,8 @@ def run_stream(ck, stream, cases, targets, sample_every=211):
         if fid is not None and fid.startswith("oracle-"):
             ck.stat(stream, "skipped:" + fid)
             continue
-        ck.disagreement("%s: %s [%s]" % (why, rec["prql"].replace("\n", " | ")[:300], rec["target"]), R.replay_of(rec), lambda _c, f=fid: f)
+        got = ck.disagreement("%s: %s [%s]" % (why, rec["prql"].replace("\n", " | ")[:300], rec["target"]), R.replay_of(rec), lambda _c, f=fid: f)
+        ck.stat(stream, "disagreement:" + (got or "UNEXPLAINED"))
     return recs
 
 
